@@ -65,6 +65,55 @@ ASSUMPTIONS = ["math.ceil(a / b) equals the integer ceiling for a < 2^53 (correc
 CHARSET = "qpzry9x8gf2tvdw0s3jn54khce6mua7l"
 
 
+DIGIT_VALUES = [i for i, ch in enumerate(CHARSET) if ch.isdigit()]     # 5-bit values written as 0 2 3 4 5 6 7 8 9
+
+
+def ref_polymod(values):
+    gen = [0x3B6A57B2, 0x26508E6D, 0x1EA119FA, 0x3D4233DD, 0x2A1462B3]
+    chk = 1
+    for v in values:
+        b = chk >> 25
+        chk = (chk & 0x1FFFFFF) << 5 ^ v
+        for i in range(5):
+            chk ^= gen[i] if ((b >> i) & 1) else 0
+    return chk
+
+
+def ref_bc32(groups):
+    """bc32 text of 5-bit groups (BCR-2020-004: polymod over [0] + groups, constant 0x3fffffff); library-independent"""
+    pm = ref_polymod([0] + groups + [0] * 6) ^ 0x3FFFFFFF
+    return "".join(CHARSET[g] for g in groups + [(pm >> 5 * (5 - i)) & 31 for i in range(6)])
+
+
+def uncased_bytes(rng, nbytes, first_byte=None, tries=40000):
+    """bytes whose bc32 text has NO cased character at all (only the digits of the alphabet, checksum included):
+    the degenerate class for every `lower()/upper()/islower()/isupper()` style case test.  The 5-bit groups are drawn
+    from the digit subset (constrained by `first_byte` and by zero padding bits), the six checksum characters are
+    hit by search (probability (9/32)^6 per candidate).  None if the search budget is exhausted."""
+    n = -(-8 * nbytes // 5)
+    pad = 5 * n - 8 * nbytes
+    for _ in range(tries):
+        groups = []
+        for i in range(n):
+            cand = DIGIT_VALUES
+            if first_byte is not None and i == 0:
+                cand = [g for g in cand if g == first_byte >> 3]
+            if first_byte is not None and i == 1:
+                cand = [g for g in cand if g >> 2 == first_byte & 7]
+            if i == n - 1:
+                cand = [g for g in cand if g & ((1 << pad) - 1) == 0]
+            if not cand:
+                return None
+            groups.append(rng.choice(cand))
+        text = ref_bc32(groups)
+        if all(ch.isdigit() for ch in text):
+            bits = 0
+            for g in groups:
+                bits = (bits << 5) | g
+            return (bits >> pad).to_bytes(nbytes, "big"), text
+    return None
+
+
 class UnknownOp(Exception):
     pass
 
@@ -181,6 +230,8 @@ def p_bc32_rt(c):
     s = B32.bc32encode(d)
     got = B32.bc32decode(s)
     ok = got == d and B32.bc32decode(s.upper()) == d and all(ch in CHARSET for ch in s)
+    if "uncased_text" in c:
+        ok = ok and s == c["uncased_text"] and not any(ch.isalpha() for ch in s)
     return ok, xb(got)[:80] if got is not None else None, xb(d)[:80]
 
 
@@ -437,6 +488,46 @@ def run(ctx):
     for s in ["", " ", "0", "-0", "+", "-", "1_", "_", "1_2_3", "00012", " 12 ", "1 2", "12a", "１２"[:0] + "12", "\x1f7\x1e"]:
         lines.append(("py_int", f"py_int {xs(s)}"))
     lines.append(("multi_parse_raw", "multi_parse 0"))
+
+    # ---- degenerate character class: texts without any cased character (digits only, checksum included)
+    uncased = [(bytes.fromhex("294a529dea"), "99999802079894")]
+    for nb in (3, 5, 6, 10, rng.choice([8, 11, 13, 15, 16, 20, 25])):     # lengths whose padding bits fit a digit
+        r = uncased_bytes(rng, nb)
+        if r is not None:
+            uncased.append(r)
+    for d, text in uncased:
+        lines.append(("bc32_enc_uncased", f"bc32_enc {xb(d)}"))
+        lines.append(("bc32_dec_uncased", f"bc32_dec {xs(text)}"))
+        preds.append(("bc32_roundtrip", {"d": xb(d), "uncased_text": text}))
+    # BCUR payloads whose CBOR + bc32 text is all digits: 16..23 bytes (CBOR prefix 0x50..0x57 starts with "2")
+    uncased_payloads = [bytes.fromhex("ca5294a5294a5294a5294a5294a5294a52d3da")]
+    for nb in (17, 20, 22, 19):     # the lengths in 16..23 whose padding bits fit a digit
+        r = uncased_bytes(rng, nb + 1, first_byte=0x40 + nb)
+        if r is not None:
+            uncased_payloads.append(r[0][1:])
+    for d in uncased_payloads:
+        lines.append(("bcur_enc_uncased", f"bcur_enc {xb(d)}"))
+        for use in (1, 0):
+            lines.append(("single_enc_uncased", f"single_enc {xb(d)} {use}"))
+        preds.append(("single_roundtrip", {"d": xb(d), "uncased": True}))
+        preds.append(("single_history", {"d": xb(d), "seq": [True, False, True]}))
+        for m in (1, 7, 20, 300):       # every chunk of every part is made of digits only
+            lines.append(("multi_enc_uncased", f"multi_enc {xb(d)} {m} 1"))
+            preds.append(("multi_roundtrip", {"d": xb(d), "chunk": m, "uncased": True}))
+        preds.append(("multi_history", {"d": xb(d), "seq": [(9, True), (300, False), (2, True)]}))
+        o = safe(BC.BCURMulti, b64(d))
+        if o is not None:
+            lines.append(("bcur_dec_uncased", f"bcur_dec {xs(o.encoded)} {xs(o.enc_hash)}"))
+            lines.append(("bcur_dec_uncased", f"bcur_dec {xs(o.encoded)} -"))
+            lines.append(("bc32_dec_uncased", f"bc32_dec {xs(o.encoded)}"))
+            for m in (5, 300):
+                parts = safe(o.encode, max_size_per_chunk=m)
+                if isinstance(parts, list):
+                    lines.append(("multi_parse_uncased", "multi_parse " + " ".join([str(len(parts))] + [xs(p) for p in parts])))
+            s1 = safe(BC.BCURSingle, b64(d))
+            for txt in ((safe(s1.encode), safe(s1.encode, use_checksum=False)) if s1 is not None else ()):
+                if isinstance(txt, str):
+                    lines.append(("single_parse_uncased", f"single_parse {xs(txt)}"))
 
     # ---- BCUR single / multi round trips over payload lengths and chunk sizes
     pl = [0, 1, 2, 17, 22, 23, 24, 25, 100, 254, 255, 256, 257, 500, 1000]
